@@ -1194,7 +1194,13 @@ class Interp:
         blk = e['args'][0] if e.get('args') else {}
         for st in blk.get('stmts', []) if blk.get('k') == 'block' else []:
             if st.get('k') == 'let' and peel(st.get('init', {})).get('k') == 'tup':
-                argv = [self.val(x, env) for x in peel(st['init'])['elems']]
+                argv = []
+                for x in peel(st['init'])['elems']:
+                    v_ = self.val(x, env)
+                    ty_ = (peel(x).get('t') or x.get('t') or '').replace('&', '').replace('mut ', '').strip()
+                    if ty_ == 'char' and isinstance(v_, int) and not isinstance(v_, bool):
+                        v_ = chr(v_)            # a char displays as the character
+                    argv.append(v_)
                 break
         if argv is None:
             argv = []
@@ -1229,9 +1235,11 @@ class Interp:
                     elif isinstance(v, (int, str)):
                         out.append(str(v))
                     else:
-                        raise Unanalysable(f'Display of {v!r:.40} in a format string')
+                        out.append(self.display_of(v))
                 elif isinstance(v, int) and not isinstance(v, bool) and spec and spec[-1] in 'Xxdb' and (spec[:-1] == '' or spec[:-1].isdigit()):
                     out.append(format(v, spec))
+                elif isinstance(v, int) and not isinstance(v, bool) and spec.isdigit():
+                    out.append(format(v, spec + 'd'))           # `{:02}`: zero-padded decimal
                 else:
                     raise Unanalysable(f'format spec `{spec}`')
                 i = j + 1
@@ -1239,6 +1247,10 @@ class Interp:
                 out.append(c)
                 i += 1
         return ''.join(out) + ('\n' if cands[0].get('macro') == 'writeln' else '')
+
+    def display_of(self, v):
+        """`{}` of a value that is no primitive: the interpreters that model Display impls override this"""
+        raise Unanalysable(f'Display of {v!r:.40} in a format string')
 
     def _call_body(self, node, env):
         self._depth = getattr(self, '_depth', 0) + 1
@@ -1420,7 +1432,8 @@ class FxInterp(Interp):
             try:
                 cur = self.val(e['lhs'], env)
                 rhs = self.val(e['rhs'], env)
-                new = {'+=': cur + rhs, '-=': cur - rhs, '+': cur + rhs, '-': cur - rhs}.get(e.get('op'))
+                op_ = (e.get('op') or '').rstrip('=')
+                new = {'+': lambda: cur + rhs, '-': lambda: cur - rhs, '*': lambda: cur * rhs, '/': lambda: cur // rhs, '%': lambda: cur % rhs}[op_]()
             except Exception:
                 new = ('unknown',)
             env.setdefault('@assign', {})[name] = new
